@@ -170,6 +170,16 @@ where
         let ska_file = BufReader::new(File::open(filename)?);
         let decompress_reader = snap::read::FrameDecoder::new(ska_file);
         let ska_obj: Self = ciborium::de::from_reader(decompress_reader)?;
+        // A file written with 128-bit split k-mers whose values all fit in 64 bits
+        // also deserialises as u64: only accept the width it was written with
+        if ska_obj.k_bits != IntT::n_bits() {
+            return Err(format!(
+                "skf file was written with {}-bit split k-mers, not {}-bit",
+                ska_obj.k_bits,
+                IntT::n_bits()
+            )
+            .into());
+        }
         Ok(ska_obj)
     }
 
